@@ -80,6 +80,12 @@ var verifHintQueriesS = []string{
 // of the respective select.
 func VerifH16s() {
 	qs := verifHintQueriesS[sym.Choice("query", len(verifHintQueriesS))]
+	// shapes that repeat a mechanism another shape already covers: thorough tier only
+	later := map[string]bool{`last_over_time(foo[1m]) + on(a, b) foo`: true, `foo{a="x"} - on(a) max_over_time(foo[2m])`: true,
+		`foo - foo @ start()`: true, `max_over_time(foo[1m] offset 30s)`: true}
+	if sym.Tier(0, 1) == 0 && later[qs] {
+		sym.Stop()
+	}
 	start := sym.Int64("start", 0, verifR)
 	step := sym.Int64("step", 1, verifR)
 	lookback := sym.Int64("lookback", 1, verifR)
